@@ -53,6 +53,7 @@ _SPECS = [
 ]
 
 HEAVY = {"tb", "timed_tb"}
+N_GENERATED = 24
 
 
 class Entry:
@@ -114,10 +115,38 @@ def load(names=None, include_heavy=True, quiet=True):
                 _CORPUS[name] = Entry(name, pickle.dumps(P), meta)
             except Exception as e:  # environment-dependent: recorded, never hard-coded
                 _SKIPPED[name] = f"{type(e).__name__}: {str(e)[:120]}"
+        # generated models: a fixed family of specs (drawn from a fixed tape seed, so that every interpreter builds the same)
+        if os.environ.get("ATOMSIM_NO_GENERATED") != "1":
+            from .chooser import random_chooser
+            from . import modelgen
+
+            for i in range(N_GENERATED):
+                name = f"gen{i:02d}"
+                try:
+                    spec = modelgen.draw_spec(random_chooser("corpus-generated-model", i))
+                    # make sure the rarer structural features are all present in the family
+                    spec["junction"] = ["none", "plain", "residual"][i % 3]
+                    spec["timed"] = bool((i // 3) % 2)
+                    spec["npops"] = 1 + (i % 3 if i % 2 else (i // 2) % 3)
+                    if spec["npops"] == 1:
+                        spec["transfer"] = False
+                    if i % 4 == 1:
+                        spec["nprogs"] = max(spec["nprogs"], 2)
+                    P = modelgen.build_project(spec, name=name)
+                    P.run_sim(P.parsets[0], store_results=False)
+                    meta = _describe(P)
+                    meta["generated_spec"] = spec
+                    _CORPUS[name] = Entry(name, pickle.dumps(P), meta)
+                except Exception as e:
+                    _SKIPPED[name] = f"{type(e).__name__}: {str(e)[:120]}"
     out = {k: v for k, v in _CORPUS.items() if (include_heavy or k not in HEAVY)}
     if names is not None:
         out = {k: v for k, v in out.items() if k in names}
     return out
+
+
+def generated_names():
+    return [k for k in (_CORPUS or {}) if k.startswith("gen")]
 
 
 def skipped():
